@@ -416,17 +416,13 @@ inductive PR (β : Type) where
   | err
   | panic
 
-structure RefAcc where
-  name : Bytes := []
-  d : RefD := { len := 0 }
-  nok : Bool := false
-  lok : Bool := false
+/-- the field loop shared by the @SQ/@RG/@PG parsers: `seen` is the `map[Tag]struct{}` that rejects a
+repeated tag, `assign` the `switch t { … }` of the parser -/
+structure FAcc (β : Type) where
+  val : β
   seen : List Tag := []
 
-def validLen (l : Int) : Bool := 1 ≤ l && l ≤ 2147483647
-def validInt32 (i : Int) : Bool := -2147483648 ≤ i && i ≤ 2147483647
-
-def refFields (E : Ext) (uriPtr : Nat) : RefAcc → List Bytes → PR RefAcc
+def fieldLoop {β : Type} (assign : β → Tag → Bytes → PR β) : FAcc β → List Bytes → PR (FAcc β)
   | a, [] => .ok a
   | a, x :: xs =>
     match parseField x with
@@ -434,35 +430,49 @@ def refFields (E : Ext) (uriPtr : Nat) : RefAcc → List Bytes → PR RefAcc
     | .bad => .err
     | .ok t v =>
       if a.seen.contains t then .err
-      else
-        let a := { a with seen := t :: a.seen }
-        if t = TAG "SN" then refFields E uriPtr { a with name := v, nok := true } xs
-        else if t = TAG "LN" then
-          match atoi v with
-          | none => .err
-          | some l => if validLen l then refFields E uriPtr { a with d := { a.d with len := l }, lok := true } xs else .err
-        else if t = TAG "AS" then refFields E uriPtr { a with d := { a.d with asm := v } } xs
-        else if t = TAG "M5" then
-          match hexDecode16 v 0 [] with
-          | .overflow => .panic
-          | .bad => .err
-          | .ok bs => if bs.length ≠ 16 then .err else refFields E uriPtr { a with d := { a.d with md5 := bs } } xs
-        else if t = TAG "SP" then refFields E uriPtr { a with d := { a.d with sp := v } } xs
-        else if t = TAG "UR" then
-          match E.parseUri v with
-          | none => .err
-          | some u => refFields E uriPtr { a with d := { a.d with uri := some (uriPtr, u) } } xs
-        else refFields E uriPtr { a with d := { a.d with other := a.d.other ++ [(t, v)] } } xs
+      else match assign a.val t v with
+        | .ok b => fieldLoop assign ⟨b, t :: a.seen⟩ xs
+        | .err => .err
+        | .panic => .panic
+
+structure RefV where
+  name : Bytes := []
+  d : RefD := { len := 0 }
+  nok : Bool := false
+  lok : Bool := false
+
+def validLen (l : Int) : Bool := 1 ≤ l && l ≤ 2147483647
+def validInt32 (i : Int) : Bool := -2147483648 ≤ i && i ≤ 2147483647
+
+def refAssign (E : Ext) (uriPtr : Nat) (a : RefV) (t : Tag) (v : Bytes) : PR RefV :=
+  if t = TAG "SN" then .ok { a with name := v, nok := true }
+  else if t = TAG "LN" then
+    match atoi v with
+    | none => .err
+    | some l => if validLen l then .ok { a with d := { a.d with len := l }, lok := true } else .err
+  else if t = TAG "AS" then .ok { a with d := { a.d with asm := v } }
+  else if t = TAG "M5" then
+    match hexDecode16 v 0 [] with
+    | .overflow => .panic
+    | .bad => .err
+    | .ok bs => if bs.length ≠ 16 then .err else .ok { a with d := { a.d with md5 := bs } }
+  else if t = TAG "SP" then .ok { a with d := { a.d with sp := v } }
+  else if t = TAG "UR" then
+    match E.parseUri v with
+    | none => .err
+    | some u => .ok { a with d := { a.d with uri := some (uriPtr, u) } }
+  else .ok { a with d := { a.d with other := a.d.other ++ [(t, v)] } }
 
 /-- `referenceLine` (repaired: the replacing reference gets the id of its slot).
-The new reference is allocated in every case (a reference that is not installed is garbage in Go). -/
+The new reference is only allocated when it is installed (otherwise it is garbage in Go). -/
 def referenceLine (E : Ext) (k : KW RefD) (uriPtr : Nat) (h : Nat) (l : Bytes) : KW RefD × Res :=
   match splitOn 9 l with
   | _ :: x :: y :: xs =>
-    match refFields E uriPtr {} (x :: y :: xs) with
+    match fieldLoop (refAssign E uriPtr) ⟨{}, []⟩ (x :: y :: xs) with
     | .panic => (k, .panic)
     | .err => (k, .err)
-    | .ok a =>
+    | .ok acc =>
+      let a := acc.val
       match k.tabs[h]? with
       | none => (k, .skip)
       | some t =>
@@ -487,49 +497,43 @@ def referenceLine (E : Ext) (k : KW RefD) (uriPtr : Nat) (h : Nat) (l : Bytes) :
             (k1.addNewU h o, .ok)
   | _ => (k, .err)
 
-structure RgAcc where
+structure RgV where
   name : Bytes := []
   d : RgD := {}
   idok : Bool := false
-  seen : List Tag := []
 
-def rgFields (E : Ext) (known : Bytes → Bool) : RgAcc → List Bytes → PR RgAcc
-  | a, [] => .ok a
-  | a, x :: xs =>
-    match parseField x with
-    | .short => .panic
-    | .bad => .err
-    | .ok t v =>
-      if a.seen.contains t then .err
-      else
-        let a := { a with seen := t :: a.seen }
-        if t = TAG "ID" then (if known v then .err else rgFields E known { a with name := v, idok := true } xs)
-        else if t = TAG "CN" then rgFields E known { a with d := { a.d with cn := v } } xs
-        else if t = TAG "DS" then rgFields E known { a with d := { a.d with ds := v } } xs
-        else if t = TAG "DT" then
-          match E.parseDate v with
-          | none => .err
-          | some d => rgFields E known { a with d := { a.d with dt := d } } xs
-        else if t = TAG "FO" then rgFields E known { a with d := { a.d with fo := v } } xs
-        else if t = TAG "KS" then rgFields E known { a with d := { a.d with ks := v } } xs
-        else if t = TAG "LB" then rgFields E known { a with d := { a.d with lb := v } } xs
-        else if t = TAG "PG" then rgFields E known { a with d := { a.d with pg := v } } xs
-        else if t = TAG "PI" then
-          match atoi v with
-          | none => .err
-          | some i => if validInt32 i then rgFields E known { a with d := { a.d with pi := i } } xs else .err
-        else if t = TAG "PL" then rgFields E known { a with d := { a.d with pl := v } } xs
-        else if t = TAG "PU" then rgFields E known { a with d := { a.d with pu := v } } xs
-        else if t = TAG "SM" then rgFields E known { a with d := { a.d with sm := v } } xs
-        else rgFields E known { a with d := { a.d with other := a.d.other ++ [(t, v)] } } xs
+/-- the `switch` of `readGroupLine` for every tag but ID: the new data, or `none` for an error -/
+def rgSet (E : Ext) (d : RgD) (t : Tag) (v : Bytes) : Option RgD :=
+  if t = TAG "CN" then some { d with cn := v }
+  else if t = TAG "DS" then some { d with ds := v }
+  else if t = TAG "DT" then (E.parseDate v).map fun x => { d with dt := x }
+  else if t = TAG "FO" then some { d with fo := v }
+  else if t = TAG "KS" then some { d with ks := v }
+  else if t = TAG "LB" then some { d with lb := v }
+  else if t = TAG "PG" then some { d with pg := v }
+  else if t = TAG "PI" then
+    match atoi v with
+    | none => none
+    | some i => if validInt32 i then some { d with pi := i } else none
+  else if t = TAG "PL" then some { d with pl := v }
+  else if t = TAG "PU" then some { d with pu := v }
+  else if t = TAG "SM" then some { d with sm := v }
+  else some { d with other := d.other ++ [(t, v)] }
+
+def rgAssign (E : Ext) (known : Bytes → Bool) (a : RgV) (t : Tag) (v : Bytes) : PR RgV :=
+  if t = TAG "ID" then (if known v then .err else .ok { a with name := v, idok := true })
+  else match rgSet E a.d t v with
+    | some d => .ok { a with d := d }
+    | none => .err
 
 def readGroupLine (E : Ext) (k : KW RgD) (h : Nat) (l : Bytes) : KW RgD × Res :=
   match splitOn 9 l, k.tabs[h]? with
   | _ :: x :: xs, some t =>
-    match rgFields E (fun n => (lookup t.seen n).isSome) {} (x :: xs) with
+    match fieldLoop (rgAssign E (fun n => (lookup t.seen n).isSome)) ⟨{}, []⟩ (x :: xs) with
     | .panic => (k, .panic)
     | .err => (k, .err)
-    | .ok a =>
+    | .ok acc =>
+      let a := acc.val
       if !a.idok then (k, .err)
       else
         let (k1, o) := k.alloc { owner := none, id := -1, name := a.name, dat := a.d }
@@ -537,36 +541,30 @@ def readGroupLine (E : Ext) (k : KW RgD) (h : Nat) (l : Bytes) : KW RgD × Res :
   | _, none => (k, .skip)
   | _, _ => (k, .err)
 
-structure PgAcc where
+structure PgV where
   name : Bytes := []
   d : PgD := {}
   idok : Bool := false
-  seen : List Tag := []
 
-def pgFields (known : Bytes → Bool) : PgAcc → List Bytes → PR PgAcc
-  | a, [] => .ok a
-  | a, x :: xs =>
-    match parseField x with
-    | .short => .panic
-    | .bad => .err
-    | .ok t v =>
-      if a.seen.contains t then .err
-      else
-        let a := { a with seen := t :: a.seen }
-        if t = TAG "ID" then (if known v then .err else pgFields known { a with name := v, idok := true } xs)
-        else if t = TAG "PN" then pgFields known { a with d := { a.d with pn := v } } xs
-        else if t = TAG "CL" then pgFields known { a with d := { a.d with cl := v } } xs
-        else if t = TAG "PP" then pgFields known { a with d := { a.d with pp := v } } xs
-        else if t = TAG "VN" then pgFields known { a with d := { a.d with vn := v } } xs
-        else pgFields known { a with d := { a.d with other := a.d.other ++ [(t, v)] } } xs
+def pgSet (d : PgD) (t : Tag) (v : Bytes) : PgD :=
+  if t = TAG "PN" then { d with pn := v }
+  else if t = TAG "CL" then { d with cl := v }
+  else if t = TAG "PP" then { d with pp := v }
+  else if t = TAG "VN" then { d with vn := v }
+  else { d with other := d.other ++ [(t, v)] }
+
+def pgAssign (known : Bytes → Bool) (a : PgV) (t : Tag) (v : Bytes) : PR PgV :=
+  if t = TAG "ID" then (if known v then .err else .ok { a with name := v, idok := true })
+  else .ok { a with d := pgSet a.d t v }
 
 def programLine (k : KW PgD) (h : Nat) (l : Bytes) : KW PgD × Res :=
   match splitOn 9 l, k.tabs[h]? with
   | _ :: x :: xs, some t =>
-    match pgFields (fun n => (lookup t.seen n).isSome) {} (x :: xs) with
+    match fieldLoop (pgAssign (fun n => (lookup t.seen n).isSome)) ⟨{}, []⟩ (x :: xs) with
     | .panic => (k, .panic)
     | .err => (k, .err)
-    | .ok a =>
+    | .ok acc =>
+      let a := acc.val
       if !a.idok then (k, .err)
       else
         let (k1, o) := k.alloc { owner := none, id := -1, name := a.name, dat := a.d }
